@@ -2,6 +2,7 @@ import Driver.Common
 import Driver.UpcastDrv
 import Driver.BusDrv
 import Driver.StoreDrv
+import Driver.StateDrv
 open Driver
 
 def runDomain (dom : String) (lines : Array String) : Array String :=
@@ -9,6 +10,8 @@ def runDomain (dom : String) (lines : Array String) : Array String :=
   | "upcast" => UpcastDrv.runCase lines
   | "bus" => BusDrv.runCase lines
   | "store" => StoreDrv.runCase lines
+  | "state" => StateDrv.runCase lines
+  | "wirecheck" => StateDrv.runWire lines
   | _ => #["unknown-domain " ++ dom]
 
 def main (args : List String) : IO UInt32 := do
